@@ -995,6 +995,63 @@ def rule_exprgrammar(chk, prog, tier):
     r.exhaustive = False
 
 
+# ------------------------------------------------------------------ C01.l return
+
+def rule_return(chk, prog, tier):
+    r = chk.rule('C01.l', 'return E; converts E to the function\'s return type as if by assignment and returns that converted value; return; returns nothing from a void function; a value in a void function or no value in a non-void one is diagnosed', floor=10,
+                 oracle='C11 6.8.6.4p1,p3')
+    fn = prog.require_func('stmt', 'stmt.c')
+    for ret in ('int', 'long', 'double', 'char', 'ptr', 'void'):
+        for hasval in (1, 0):
+            def runner(it):
+                w = World(prog, it=it, target='x86_64-sysv')
+                u = {'int': w.t('int'), 'long': w.t('long'), 'double': w.t('double'), 'char': w.t('char'), 'void': w.t('void'), 'ptr': w.mkptr(w.t('int'))}
+                toks = ['TRETURN'] + (['X'] if hasval else []) + ['TSEMICOLON', 'TEOF']
+                tokobj = it.gobj('tok'); st = {'i': 0}
+                def load():
+                    k = toks[min(st['i'], len(toks) - 1)]
+                    tokobj.f[('kind',)] = ev(prog, 'TIDENT' if k == 'X' else k); tokobj.f[('lit',)] = None
+                    tokobj.f[('loc', 'file')] = None; tokobj.f[('loc', 'line')] = 1; tokobj.f[('loc', 'col')] = 1
+                def nxt(i2, a, e): st['i'] += 1; load(); return None
+                def expect(i2, a, e):
+                    if tokobj.f[('kind',)] != a[0] or toks[min(st['i'], len(toks) - 1)] == 'X': raise Terminal('error', 'expected token')
+                    nxt(i2, a, e); return None
+                operand = w.mkexpr('EXPRIDENT', w.t('int'))
+                def expr(i2, a, e):
+                    if toks[min(st['i'], len(toks) - 1)] != 'X': raise Terminal('error', 'expected expression')
+                    nxt(i2, a, e); return operand
+                conv = {}
+                def exprassign(i2, a, e):
+                    x = w.mkexpr('EXPRCAST', a[1], a[0]); conv['node'] = x; conv['from'] = a[0]; conv['type'] = a[1]; return x
+                ft = it.call('mktype', [ev(prog, 'TYPEFUNC'), 0]); ft.obj.f[('base',)] = u[ret]
+                it.models.update({'next': nxt, 'expect': expect, 'expr': expr, 'exprassign': exprassign, 'attr': lambda i2, a, e: 0, 'delexpr': lambda i2, a, e: None,
+                                  'functype': lambda i2, a, e: ft, 'funcexpr': lambda i2, a, e: (i2.event('eval', a[1]), val('v'))[1], 'funcret': lambda i2, a, e: i2.event('ret', a[1]),
+                                  'xmalloc': lambda i2, a, e: Ptr(Obj('heap@%s' % e.get('line'), 'heap'), ()),
+                                  'error': lambda i2, a, e: (_ for _ in ()).throw(Terminal('error', cmodel.fmt_of(i2, a, 1))),
+                                  'fatal': lambda i2, a, e: (_ for _ in ()).throw(Terminal('fatal', cmodel.fmt_of(i2, a, 0)))})
+                load()
+                sc = Obj('scope', 'heap'); sc.f.update({('parent',): None, ('breaklabel',): None, ('continuelabel',): None, ('switchcases',): None})
+                it.call(fn, [Ptr(Obj('func', 'heap'), ()), Ptr(sc, ())])
+                evs = [e_ for e_ in it.events if e_[0] in ('eval', 'ret')]
+                okconv = conv.get('from') is not None and conv['from'].obj is operand.obj and conv['type'].obj is u[ret].obj
+                evaluated = [e_[1].obj is conv.get('node', operand).obj for e_ in evs if e_[0] == 'eval']
+                rets = [e_[1] for e_ in evs if e_[0] == 'ret']
+                return okconv, evaluated, [lab_ is not None for lab_ in rets], st['i']
+            runs = explore(prog, runner, {}, max_runs=4, on_unsupported='keep')
+            if len(runs) != 1 or runs[0].outcome == 'unsupported':
+                raise AnalysisBroken('stmt return %s: %s' % (ret, runs[0].detail if runs else 'no run'))
+            run = runs[0]
+            key = 'return:%s function,%s' % (ret, 'value' if hasval else 'no value')
+            if (ret == 'void') == bool(hasval):
+                r.instance(run.outcome == 'terminal:error', key, 'stmt.c:%s' % fn.get('line'), 'constraint violation (6.8.6.4p1) must be diagnosed; got %s %s' % (run.outcome, run.value if run.outcome == 'return' else ''))
+            elif ret == 'void':
+                r.instance(run.outcome == 'return' and run.value[1] == [] and run.value[2] == [False], key, 'stmt.c:%s' % fn.get('line'), 'expected a plain ret; got %s %s' % (run.outcome, run.value if run.outcome == 'return' else run.detail))
+            else:
+                r.instance(run.outcome == 'return' and run.value[0] and run.value[1] == [True] and run.value[2] == [True], key, 'stmt.c:%s' % fn.get('line'),
+                           'expected: operand converted to %s by exprassign, the converted expression evaluated once, its value returned; got %s %s' % (ret, run.outcome, run.value if run.outcome == 'return' else run.detail))
+    r.exhaustive = True
+
+
 def run(chk, tier):
     prog = facts.programs()['cproc-qbe']
     chk.guard('C01.a', lambda: rule_binop(chk, prog, tier))
@@ -1008,5 +1065,6 @@ def run(chk, tier):
     chk.guard('C01.i', lambda: rule_designators(chk, prog, tier))
     chk.guard('C01.j', lambda: rule_exprflow(chk, prog, tier))
     chk.guard('C01.k', lambda: rule_exprgrammar(chk, prog, tier))
+    chk.guard('C01.l', lambda: rule_return(chk, prog, tier))
     from props import c01f
     chk.guard('C01.f', lambda: c01f.rule_statements(chk, prog, tier))
